@@ -92,6 +92,12 @@ func ChunkMatchFromProto(p *webserverv1.ChunkMatch) ChunkMatch {
 
 	symbols := make([]*Symbol, len(p.GetSymbolInfo()))
 	for i, r := range p.GetSymbolInfo() {
+		// SymbolInfo has a nil entry for a range that is not a symbol. A
+		// repeated message field cannot carry nil: such an entry arrives as
+		// an empty message (a real symbol always has a name).
+		if r.GetSym() == "" && r.GetKind() == "" && r.GetParent() == "" && r.GetParentKind() == "" {
+			continue
+		}
 		symbols[i] = SymbolFromProto(r)
 	}
 
